@@ -154,7 +154,9 @@ def sign_key(b):
 def run(tier):
     chk = Check(PROP, tier)
     chk.model("MC_SM2Toy", cfg="MC_SM2Toy.cfg" if tier == "thorough" else "MC_SM2Toy_quick.cfg")
-    chk.exec_and_validate("T_SM2", gen(chk, tier), keyfn, accel=True, families=("bits", "big"))
+    cmds_ = gen(chk, tier)
+    chk.exec_and_validate("T_SM2", cmds_, keyfn, accel=True, families=("bits", "big"))
+    chk.first_use("T_SM2", cmds_, keyfn, accel=True, families=("bits", "big"))
     return chk.finish(
         "model_checking",
         "SignHashed on streams whose first candidates are solved to hit each rejection rule (k >= n, k = 0, r = 0, "
